@@ -80,14 +80,13 @@ theorem C10_child_output_is_parent_output (E : Env) (go : Go) (tpl : Bytes) (nod
   obtain ⟨name, _, h⟩ := bind_ok h
   dsimp only at h
   split at h
-  · simp only [unsup] at h; cases h
-  · split at h
-    · cases h
-    · obtain ⟨⟨o2, st2⟩, h2, h⟩ := bind_ok h
-      cases h
-      refine ⟨name, _, st2, h2, ?_, rfl⟩
-      have := evalX_ctx E _ _ _ _ _ h1
-      simp only [freshCtx, this, regSt]
+  · cases h
+  · rename_i rn _
+    obtain ⟨⟨o2, st2⟩, h2, h⟩ := bind_ok h
+    cases h
+    refine ⟨rn, _, st2, h2, ?_, rfl⟩
+    have := evalX_ctx E _ _ _ _ _ h1
+    simp only [freshCtx, this, regSt]
 
 /-! ## a block renders the most derived definition -/
 
